@@ -359,6 +359,35 @@ func main() {
 		}
 	}
 
+	// ---- `go` statements on the codec path: serialization.go, GenHash/GenHashes, network/message.go, the
+	// transaction-request codec in core (conversions must be sequential: results are complete when the call returns)
+	var goStmts []string
+	countGo := func(file string, only map[string]bool) {
+		pf, err := parser.ParseFile(token.NewFileSet(), filepath.Join(repo, file), nil, 0)
+		if err != nil {
+			return
+		}
+		for _, d := range pf.Decls {
+			fd, ok := d.(*ast.FuncDecl)
+			if !ok || fd.Body == nil || (only != nil && !only[fd.Name.Name]) {
+				continue
+			}
+			ast.Inspect(fd.Body, func(n ast.Node) bool {
+				if _, ok := n.(*ast.GoStmt); ok {
+					goStmts = append(goStmts, file[strings.LastIndex(file, "/")+1:]+":"+fd.Name.Name)
+				}
+				return true
+			})
+		}
+	}
+	countGo("src/middleware/types/serialization.go", nil)
+	countGo("src/middleware/types/core.go", map[string]bool{"GenHash": true, "GenHashes": true, "Hash": true})
+	countGo("src/middleware/types/transaction.go", map[string]bool{"GenHash": true, "GenHashes": true})
+	countGo("src/network/message.go", nil)
+	countGo("src/core/msg_handler.go", map[string]bool{"unMarshalTransactionRequestMessage": true})
+	countGo("src/core/msg_sender.go", map[string]bool{"marshalTransactionRequestMessage": true})
+	sort.Strings(goStmts)
+
 	// ---- network/message.go: is the optional envelope field Code dereferenced without a nil test?
 	envelopeGuarded := true
 	if nf, err := parser.ParseFile(token.NewFileSet(), filepath.Join(repo, "src/network/message.go"), nil, 0); err == nil {
@@ -670,6 +699,12 @@ structure DerefSite where
 	sb.WriteString("\n]\n\n")
 	sb.WriteString("/-- consensus/net: MessageHandler.Handle defers a recover() around every decoder it calls. -/\n")
 	fmt.Fprintf(&sb, "def consensusHandlerRecovers : Bool := %v\n\n", consensusRecovers)
+	sb.WriteString("/-- `go` statements in the codec functions (serialization.go, GenHash methods, network/message.go, the\n    transaction-request codec)")
+	if len(goStmts) > 0 {
+		sb.WriteString(": " + strings.Join(goStmts, ", "))
+	}
+	sb.WriteString(". -/\n")
+	fmt.Fprintf(&sb, "def goStatements : Nat := %d\n\n", len(goStmts))
 	sb.WriteString("/-- network/message.go unMarshalMessage: no unguarded `*message.Code` (an optional field). -/\n")
 	fmt.Fprintf(&sb, "def envelopeCodeGuarded : Bool := %v\n\n", envelopeGuarded)
 	sb.WriteString(`/-- Schema as the protobuf runtime sees it (struct tags of x.pb.go):
